@@ -250,6 +250,11 @@ def case_record(c):
                 @staticmethod
                 def glob(pattern, *a, **k):
                     return list(_G.order)
+
+                @staticmethod
+                def escape(pathname):
+                    import glob as _real_glob
+                    return _real_glob.escape(pathname)
             saved = raw_utils.glob
             raw_utils.glob = _G
             try:
